@@ -9,7 +9,10 @@ void harness::run_case(const eng::Raw& raw, eng::Ctx& ctx)
 {
 	const eng::Rec h = raw.empty() ? eng::Rec{} : raw[0];
 	const size_t maxN = ctx.tier() ? 14 : 8;
-	const size_t n = 1 + h[0] % maxN;
+	// 1/24 of the cases are LARGE (65..220 states, chain/tree shaped with a few generated extra edges): internal tables
+	// of the engine are sized in words of 64 and relation rows in powers of two from 16
+	const bool large = (h[7] % 24 == 23);
+	const size_t n = large ? 65 + h[0] % 156 : 1 + h[0] % maxN;
 	const size_t nl = 1 + h[1] % 4;
 	const bool withPartition = (h[2] % 3) != 0;
 	const size_t outSize = (h[3] % 3 == 0) ? 1 + (h[3] / 3) % n : n;
@@ -18,10 +21,18 @@ void harness::run_case(const eng::Raw& raw, eng::Ctx& ctx)
 	// edges
 	std::vector<std::array<size_t,3>> edges;
 	std::set<std::array<size_t,3>> edgeSet;
+	if (large) {
+		// backbone: state i+1 -> state (i+1)/k (k = 1: chain, k = 2: binary tree) with a label depending on i
+		const size_t k = 1 + h[4] % 2;
+		for (size_t i = 0; i + 1 < n; ++i) {
+			std::array<size_t,3> e{i + 1, (h[5] % 3 == 0) ? 0 : i % nl, k == 1 ? i : (i + 1) / 2};
+			if (edgeSet.insert(e).second) edges.push_back(e);
+		}
+	}
 	for (size_t i = 1; i < raw.size(); ++i) {
 		const eng::Rec& r = raw[i];
 		if (r[0] % 4 == 3) continue;      // records reserved for the partition / preorder
-		std::array<size_t,3> e{r[1] % n, r[2] % nl, r[3] % n};
+		std::array<size_t,3> e{(r[1] + (large ? r[4] * 7 : 0)) % n, r[2] % nl, (r[3] + (large ? r[5] * 11 : 0)) % n};
 		if (edgeSet.insert(e).second || allowDuplicateEdges) edges.push_back(e);
 	}
 	// partition into non-empty blocks + preorder on blocks (reflexive transitive closure of generated pairs)
@@ -46,7 +57,8 @@ void harness::run_case(const eng::Raw& raw, eng::Ctx& ctx)
 	{
 		std::ostringstream d;
 		d << "states " << n << " labels " << nl << " output-size " << outSize << (allowDuplicateEdges ? " (duplicate edges kept)" : "") << "\nedges:";
-		for (auto& e : edges) d << " " << e[0] << "-" << e[1] << "->" << e[2];
+		size_t shown = 0;
+		for (auto& e : edges) { if (++shown > 60) { d << " ... (" << edges.size() << " edges)"; break; } d << " " << e[0] << "-" << e[1] << "->" << e[2]; }
 		d << "\n";
 		if (withPartition) {
 			d << "block of state:";
@@ -62,6 +74,8 @@ void harness::run_case(const eng::Raw& raw, eng::Ctx& ctx)
 	// reference: naive greatest fixpoint inside {(q,r) | block(q) <= block(r)}
 	std::vector<std::vector<bool>> sim(n, std::vector<bool>(n, false));
 	for (size_t q = 0; q < n; ++q) for (size_t r = 0; r < n; ++r) sim[q][r] = pre[blockOf[q]][blockOf[r]];
+	std::vector<std::vector<std::pair<size_t,size_t>>> out(n);      // state -> (label, target)
+	for (auto& e : edges) out[e[0]].push_back({e[1], e[2]});
 	bool changed = true;
 	bool refined = false;
 	while (changed) {
@@ -69,10 +83,9 @@ void harness::run_case(const eng::Raw& raw, eng::Ctx& ctx)
 		for (size_t q = 0; q < n; ++q) for (size_t r = 0; r < n; ++r) {
 			if (!sim[q][r]) continue;
 			bool ok = true;
-			for (auto& e : edges) {
-				if (e[0] != q) continue;
+			for (auto& e : out[q]) {
 				bool answered = false;
-				for (auto& f : edges) if (f[0] == r && f[1] == e[1] && sim[e[2]][f[2]]) { answered = true; break; }
+				for (auto& f : out[r]) if (f.first == e.first && sim[e.second][f.second]) { answered = true; break; }
 				if (!answered) { ok = false; break; }
 			}
 			if (!ok) { sim[q][r] = false; changed = true; refined = true; }
@@ -81,6 +94,7 @@ void harness::run_case(const eng::Raw& raw, eng::Ctx& ctx)
 	size_t cnt = 0;
 	for (size_t q = 0; q < n; ++q) for (size_t r = 0; r < n; ++r) if (sim[q][r]) ++cnt;
 	ctx.nontrivial(cnt > n && cnt < n * n && refined);
+	if (large) ctx.tag("large:65-220-states");
 	if (withPartition) ctx.tag("with-partition");
 	if (outSize < n) ctx.tag("restricted-output");
 	if (refined) ctx.tag("needed-refinement");
@@ -108,8 +122,8 @@ void harness::run_case(const eng::Raw& raw, eng::Ctx& ctx)
 	std::string extra, missing;
 	for (size_t q = 0; q < outSize; ++q) for (size_t r = 0; r < outSize; ++r) {
 		const bool got = result.get(q, r);
-		if (got && !sim[q][r]) extra += "(" + std::to_string(q) + "," + std::to_string(r) + ")";
-		if (!got && sim[q][r]) missing += "(" + std::to_string(q) + "," + std::to_string(r) + ")";
+		if (got && !sim[q][r] && extra.size() < 200) extra += "(" + std::to_string(q) + "," + std::to_string(r) + ")";
+		if (!got && sim[q][r] && missing.size() < 200) missing += "(" + std::to_string(q) + "," + std::to_string(r) + ")";
 	}
 	ctx.count("relations_compared");
 	if (!extra.empty()) ctx.fail("lts:too-big", "computed relation contains " + extra + " outside the greatest simulation");
